@@ -371,6 +371,9 @@ func runReal(x *X, pk PkgMeta, c *Case, safety uint64) (*vrt.Response, *vrt.Ctx)
 		InitState: initStateOf(c.Opts), Globals: globalsOf(c.Opts), Ctx: ctx, WarmStats: c.Opts.WarmStats && c.Opts.Stats,
 		ViaReader: c.Opts.Via == "reader", ViaFile: c.Opts.Via == "file", DupOpts: c.Opts.DupOpts, OptOrder: c.Opts.OptOrder, PoisonBefore: c.Opts.PoisonBefore, CallAfter: c.Opts.CallAfter,
 		MemoExtraOK: !x.G.Spec.HasState && x.G.Spec.Profile != "diverging" && x.G.Spec.Profile != "leftrec"}
+	if req.Memoize && x.G.Spec.HasStatePred() {
+		req.Memoize = false // (see Grammar.HasStatePred)
+	}
 	if req.MaxExpr == 0 && safety > 0 {
 		req.MaxExpr = safety
 	}
